@@ -311,7 +311,7 @@ def cut_stream(res, rng, tier):
 
 def noskip_stream(res, rng, tier):
     """skipna=False: nulls are not skipped - nansum / nanmax / nanmin / nanmean must return what NumPy's PLAIN sum / max / min /
-    mean return (NaN as soon as a NaN is present), for every number of worker threads (also more threads than elements)."""
+    mean / var / std (ddof=1) return (NaN as soon as a NaN is present), for every number of worker threads (also more threads than elements)."""
     import warnings
     from groupby_lib import nanops
     vals_f = [float("nan"), 1.0, 2.0, -3.0, 0.5, 4.0, 7.0]
@@ -323,9 +323,13 @@ def noskip_stream(res, rng, tier):
         else:
             vals = [rng.choice([1, 2, -3, 0, 4, 7, 100]) for _ in range(L)]
         arr = np.array(vals, dtype=dt)
-        fn = rng.choice(["nansum", "nanmax", "nanmin", "nanmean"])
+        fn = rng.choice(["nansum", "nanmax", "nanmin", "nanmean", "nanvar", "nanstd"])
         nt = rng.choice([1, 1, 2, 3, 4, 5, 8])
-        want = {"nansum": np.sum, "nanmax": np.max, "nanmin": np.min, "nanmean": np.mean}[fn](arr.astype("float64") if dt.startswith("f") else arr)
+        ref = arr.astype("float64") if dt.startswith("f") else arr
+        with np.errstate(all="ignore"), __import__("warnings").catch_warnings():
+            __import__("warnings").simplefilter("ignore")
+            want = (np.var(ref, ddof=1) if fn == "nanvar" else np.std(ref, ddof=1) if fn == "nanstd"
+                    else {"nansum": np.sum, "nanmax": np.max, "nanmin": np.min, "nanmean": np.mean}[fn](ref))
         case = dict(helper="nanops", stream="noskip", func=fn, dtype=dt, values=[str(v) for v in vals], n_threads=nt)
         res.note_case(repr(case), any(v != v for v in vals) or nt > 1)
         res.count("stream", "noskip"); res.count("noskip_func", fn); res.count("n_threads", nt)
@@ -337,7 +341,7 @@ def noskip_stream(res, rng, tier):
                 res.violations.append(dict(sig=dict(helper="nanops", stream="noskip", what="raised", func=fn), case=case, observed=repr(e)[:200], expected=str(want), what="nanops raised with skipna=False"))
                 continue
         want = float(want)
-        ok = (got != got and want != want) or (got == got and want == want and abs(got - want) <= 1e-6 * max(1.0, abs(want)))
+        ok = (got != got and want != want) or (got == got and want == want and abs(got - want) <= (1e-4 if dt == 'f4' else 1e-6) * max(1.0, abs(want)))
         if not ok:
             res.violations.append(dict(sig=dict(helper="nanops", stream="noskip", what="value", func=fn, dtype=dt), case=case, observed=str(got), expected=str(want),
                                        what=f"nanops.{fn}(skipna=False) differs from NumPy's plain reduction (a null that is not skipped must make the result null, for every thread count)"))
